@@ -787,7 +787,7 @@ class IterativeIASolverBaseClass(IASolverBaseClass):
         A difference is considered significant if it is larger then 1/1000
         of the minimum value in the precoder.
         """
-        K = F_old.size
+        K = len(F_old)
         for k in range(K):
             Fk_old = F_old[k]
             Fk_new = F_new[k]
